@@ -421,7 +421,13 @@ def emits (l l' : LState) : Op → List Cmd
   | .rebalanceApi migs =>
     -- one `GroupUpdated` per group, in some HashMap order (keys are unique: any order gives the same state)
     if (migrateAll l migs).2 then l'.groups.reverse.map fun e => .groupUpdated e.1 e.2 else []
-  | .drain _ _ => []
+  | .drain id _ =>
+    -- repaired (`fix:`): once the worker is gone, the groups and the deregistration are proposed
+    match l.workers.get id with
+    | none => []
+    | some w =>
+      if w.status = .draining then []
+      else (l'.groups.reverse.map fun e => Cmd.groupUpdated e.1 e.2) ++ [.deregisterWorker id]
   | .connCreate name body valid =>
     -- repaired (`fix:`): validation happens before the proposal
     if (l.connectors.get name).isSome || !valid then [] else [.connectorCreated name body]
@@ -438,10 +444,11 @@ def emits (l l' : LState) : Op → List Cmd
   | .tickRebalance _ => []
   | .startupPolicy _ => []
 
-/-- the code before the two `fix:` commits: heartbeat recovery proposed nothing; connector creation and
+/-- the code before the `fix:` commits: heartbeat recovery and drain proposed nothing; connector creation and
 update were proposed before validation -/
 def emitsPreFix (l l' : LState) : Op → List Cmd
   | .heartbeat _ _ _ _ => []
+  | .drain _ _ => []
   | .connCreate name body _ => [.connectorCreated name body]
   | .connUpdate name _ body _ => [.connectorUpdated name body]
   | op => emits l l' op
@@ -572,9 +579,7 @@ def knownCell : Kind → Comp → Option String
   -- no command carries `pipelines_running` / `events_processed`; `WorkerPipelinesUpdated` is proposed by
   -- `reconcile_placements` only — yet `sync_from_raft` overwrites all three from the replicated entry
   | .heartbeat, .book | .deploy, .book | .teardown, .book | .migrate, .book | .rebalanceApi, .book
-  | .tickReconcile, .book => some "C38-worker-bookkeeping-not-replicated"
-  -- `handle_drain_worker` proposes nothing
-  | .drain, .wset | .drain, .groups | .drain, .book => some "C38-drain-not-replicated"
+  | .tickReconcile, .book | .drain, .book => some "C38-worker-bookkeeping-not-replicated"
   -- main.rs health loop: the results of `handle_worker_failure` are not proposed
   | .tickFailover, .groups | .tickFailover, .book => some "C38-failover-not-replicated"
   -- main.rs health loop: the results of the automatic `rebalance()` are not proposed
